@@ -60,6 +60,14 @@ def mkComp (tc : TComp) : Comp :=
           | none => (none, "end")
       | tk :: kind :: _ =>
           if kind = "ret" then (st, "")      -- the model printed its own ret line already
+          else if kind = "deadlock" then
+            -- the implementation's thread sleeps for good: the model's thread must be disabled as well
+            match st, tidOf tk with
+            | some c, some i =>
+              match tc.sys.stepAt c i with
+              | none => (st, s!"T{i} deadlock")
+              | some _ => (st, s!"T{i} <model thread can step>")
+            | _, _ => (st, "bad-line")
           else
             match st, tidOf tk with
             | some c, some i =>
